@@ -1,6 +1,6 @@
 """Log capture scenarios for C08 (stored logs), C15 (a listener never changes the outcome) and C20 (what a
 listener prints): real child processes writing scripted chunks with scripted pauses on both streams."""
-import json, os, random, re, signal, subprocess, time
+import shutil, json, os, random, re, signal, subprocess, time
 import vlib, runscen
 
 HDR = re.compile(rb"^\[monorail \| (?:\x1b\[[0-9;]*m)?(stdout\.zst|stderr\.zst)(?:\x1b\[0m)? \| (.*) \| (.*)\]$")
@@ -181,6 +181,44 @@ def c08_twice_case(ctx, rng, first_longer=True):
         ok = not bad and decode_err is None and rcl == 0
         ctx.record(case, True, ok, ok, True, sample={"invocation": "run -c build build", "first_is_longer": order[0] is big, "log_show_rc": rcl},
                    detail={"stored_problems": bad[:4], "decode_error": decode_err, "log_show_rc": rcl, "log_show_err": rawl.stderr.decode("utf-8", "replace")[-200:]})
+    finally:
+        rr.close()
+
+def c08_write_error_case(ctx, rng):
+    """The file system refuses part of a log (no space left: every write(2) to one task's stdout.zst fails with ENOSPC, injected by
+    strace).  A run that reports the task as `success` must have stored exactly what the task wrote; otherwise it has to report the failure."""
+    strace = shutil.which("strace")
+    if not strace:
+        ctx.count("strace_unavailable"); return
+    cfg = {"targets": [{"path": "t00"}, {"path": "t01"}]}
+    payload = rng.randbytes(rng.choice([6000, 20000, 200000]))
+    script = {"*": {"quiet": True}, "build|t00": {"chunks": [[1, payload.hex(), 0]]}}
+    rr = runscen.RunRepo(ctx, cfg, commands=["build"])
+    try:
+        rr.script = script; rr.write_script()
+        rr.run_no += 1; rr.clear_traces()
+        env = dict(os.environ); env.update(vlib.GIT_ENV); env.update(rr.env())
+        target = os.path.join(rr.out_dir(), "run", "1", "build", runscen.thash("t00"), "stdout.zst")
+        try:
+            p = subprocess.run([strace, "-f", "-b", "execve", "-o", "/dev/null", "-e", "trace=write,pwrite64,writev", "-e", "inject=write,pwrite64,writev:error=ENOSPC", "-P", target,
+                                vlib.BIN_MONORAIL, "-f", os.path.join(rr.repo, "Monorail.json"), "run", "-c", "build"], cwd=rr.repo, env=env, capture_output=True, timeout=120)
+        except subprocess.TimeoutExpired:
+            ctx.count("strace_timeout"); return
+        if b"ptrace" in p.stderr and p.returncode not in (0, 1, 2):
+            ctx.count("strace_unusable"); return
+        out = None
+        for line in reversed(p.stdout.decode("utf-8", "replace").strip().splitlines()):
+            try: out = json.loads(line); break
+            except Exception: continue
+        st = {t: s_ for c, gs in runscen.result_statuses(out) for g in gs for t, s_ in g.items()} if out else {}
+        stored = rr.unzstd(target) if os.path.exists(target) else None
+        claimed_success = p.returncode == 0 and st.get("t00", ("?",))[0] == "success"
+        ok = (stored == payload) if claimed_success else True
+        ctx.count("log_write_error_%s" % ("reported_success" if claimed_success else "reported_failure"))
+        ctx.record({"log_write_error": True, "bytes": len(payload)}, True, ok, ok, True,
+                   sample={"bytes_written_by_the_task": len(payload), "rc": p.returncode, "status": st.get("t00")},
+                   detail={"what": "writes to the task's stdout.zst fail with ENOSPC", "rc": p.returncode, "status": st.get("t00"), "stored_bytes": None if stored is None else len(stored),
+                           "stderr": p.stderr.decode("utf-8", "replace")[-300:]})
     finally:
         rr.close()
 
@@ -459,6 +497,7 @@ def run(ctx, scale, focus):
         plan = [(4, "mixed"), (24, "text"), (8, "mixed"), (2, "mixed"), (12, "mixed"), (2, "volume")] if ctx.quick() else [(n, k) for n in (1, 2, 4, 8, 16, 24) for k in ("text", "mixed")] * 6 + [(3, "volume"), (5, "volume")] * 3
         for n, kind in plan * scale: c08_case(ctx, random.Random(rng.getrandbits(32)), n, kind)
         for i in range((2 if ctx.quick() else 8) * scale): c08_twice_case(ctx, random.Random(rng.getrandbits(32)), first_longer=(i % 2 == 0))
+        for i in range((1 if ctx.quick() else 6) * scale): c08_write_error_case(ctx, random.Random(rng.getrandbits(32)))
         # the same with a `log tail` listener attached: alive throughout, or dying while the tasks are still writing
         lplan = [(4, "mixed", "alive"), (6, "text", 0.3), (4, "mixed", 0.8)] if ctx.quick() else [(n, k, l) for n in (2, 6, 12) for k in ("text", "mixed") for l in ("alive", 0.2, 0.6, 1.2)]
         for n, kind, l in lplan * scale: c08_case(ctx, random.Random(rng.getrandbits(32)), n, kind, l)
@@ -491,7 +530,8 @@ def run(ctx, scale, focus):
 def replay(ctx, case, focus):
     c = case.get("case", case)
     rng = random.Random(ctx.seed)
-    if focus == "C08" and c.get("twice"): c08_twice_case(ctx, rng, c.get("first_is_longer", True))
+    if focus == "C08" and c.get("log_write_error"): c08_write_error_case(ctx, rng)
+    elif focus == "C08" and c.get("twice"): c08_twice_case(ctx, rng, c.get("first_is_longer", True))
     elif focus == "C08": c08_case(ctx, rng, c.get("targets", 4), c.get("kind", "mixed"), c.get("listener", "none"))
     elif focus == "C15": c15_case(ctx, rng, c.get("targets", 4), c.get("listener_killed", 0.25), c.get("filters", ["--stdout", "--stderr"]))
     else: c20_case(ctx, rng, c.get("targets", 4), c.get("filters", ["--stdout", "--stderr"]), c.get("crlf", False), c.get("burst", 0), c.get("paused", 0), tuple(c.get("extra_cmds", ())), c.get("long_line", 0), c.get("cancel", False), c.get("wide", False))
